@@ -307,7 +307,7 @@ def run(prop_id, tier, seed, replay=None):
     elif not P["ok"] or total["disagreements"] or tie_failures:
         payload = dict(property=prop_id, kind="no-failing-input-found",
                        proof_failures=P["failures"], proof_log_tail=P["log"][-2000:] if not P["ok"] else "",
-                       tie_failures=tie_failures,
+                       tie_failures=tie_failures, translation_note=str(pregen_note) if pregen_note else "",
                        correspondence="impl vs Lean model (driver) for %s" % prop_id,
                        first_disagreements=total["disagreements"][:3],
                        searched_neighbours=searched, oracle_cases=total["n"])
